@@ -1,5 +1,6 @@
 use super::{ParseErrorReason, QplibParseError};
 use std::collections::HashMap;
+use std::num::NonZeroUsize;
 use std::{
     fmt::Display,
     fs,
@@ -480,7 +481,7 @@ where
         ParseErrorReason: From<E>,
     {
         self.consume_map(2, |parts| {
-            let key = parts[0].parse::<usize>()? - 1;
+            let key = parts[0].parse::<NonZeroUsize>()?.get() - 1;
             let val: V = parts[1].parse()?;
             Ok((key, val))
         })
@@ -493,8 +494,8 @@ where
     fn collect_ij_val(&mut self) -> Result<HashMap<(usize, usize), f64>> {
         self.consume_map(3, |parts| {
             let key = (
-                parts[0].parse::<usize>()? - 1,
-                parts[1].parse::<usize>()? - 1,
+                parts[0].parse::<NonZeroUsize>()?.get() - 1,
+                parts[1].parse::<NonZeroUsize>()?.get() - 1,
             );
             let val = parts[2].parse()?;
             Ok((key, val))
@@ -523,7 +524,9 @@ where
         for _ in 0..num {
             let parts = self.next_split_n(segments + 1)?;
             let (m, key, val) = f(parts).map_err(|e| e.with_line(self.line_num))?;
-            out[m].insert(key, val);
+            out.get_mut(m)
+                .ok_or(QplibParseError::invalid_line(self.line_num))?
+                .insert(key, val);
         }
         Ok(out)
     }
@@ -534,8 +537,8 @@ where
     /// 0-indexed.
     fn collect_list_of_i_val(&mut self, size: usize) -> Result<Vec<HashMap<usize, f64>>> {
         self.consume_list_of_maps(size, 3, |parts| {
-            let m = parts[0].parse::<usize>()? - 1;
-            let key = parts[1].parse::<usize>()? - 1;
+            let m = parts[0].parse::<NonZeroUsize>()?.get() - 1;
+            let key = parts[1].parse::<NonZeroUsize>()?.get() - 1;
             let val = parts[2].parse()?;
             Ok((m, key, val))
         })
@@ -547,10 +550,10 @@ where
     /// 0-indexed.
     fn collect_list_of_ij_val(&mut self, size: usize) -> Result<Vec<HashMap<(usize, usize), f64>>> {
         self.consume_list_of_maps(size, 4, |parts| {
-            let m = parts[0].parse::<usize>()? - 1;
+            let m = parts[0].parse::<NonZeroUsize>()?.get() - 1;
             let key = (
-                parts[1].parse::<usize>()? - 1,
-                parts[2].parse::<usize>()? - 1,
+                parts[1].parse::<NonZeroUsize>()?.get() - 1,
+                parts[2].parse::<NonZeroUsize>()?.get() - 1,
             );
             let val = parts[3].parse()?;
             Ok((m, key, val))
@@ -575,11 +578,12 @@ where
         let num = self.next_parse()?;
         for _ in 0..num {
             let parts = self.next_split_n(3)?; // this is 3 because we ignore anything beyond the first 2
-            let (i, val): (usize, V) = (
+            let (i, val): (NonZeroUsize, V) = (
                 self.parse_or_err_with_line(&parts[0])?,
                 self.parse_or_err_with_line(&parts[1])?,
             );
-            out[i - 1] = val;
+            *out.get_mut(i.get() - 1)
+                .ok_or(QplibParseError::invalid_line(self.line_num))? = val;
         }
         Ok(out)
     }
